@@ -145,16 +145,58 @@ class Model:
         return None
 
     def is_options(self, e: ast.expr) -> bool:
-        """`e` denotes the caller's options dict itself (the **kwargs parameter or a local alias of it)."""
+        """`e` denotes the caller's options dict (the **kwargs parameter, a local alias or a copy of it)."""
         seen = 0
-        while isinstance(e, ast.Name) and seen < 8:
-            if e.id == self.kw and len(self.binds.get(e.id, [])) == 1:
-                return True
-            v = self.single_value(e.id)
-            if v is None:
-                return False
-            e, seen = v, seen + 1
+        while seen < 8:
+            seen += 1
+            if isinstance(e, ast.Name):
+                if e.id == self.kw and len(self.binds.get(e.id, [])) == 1:
+                    return True
+                v = self.single_value(e.id)
+                if v is None:
+                    return False
+                e = v
+                continue
+            if isinstance(e, ast.Call) and isinstance(e.func, ast.Name) and e.func.id == "dict" and len(e.args) == 1 and not e.keywords:
+                e = e.args[0]
+                continue
+            if isinstance(e, ast.Call) and isinstance(e.func, ast.Attribute) and e.func.attr == "copy" and not e.args:
+                e = e.func.value
+                continue
+            if isinstance(e, ast.Dict) and len(e.keys) == 1 and e.keys[0] is None:
+                e = e.values[0]
+                continue
+            if self.filtered_options(e) is not None:
+                e = e.generators[0].iter.func.value
+                continue
+            return False
         return False
+
+    def filtered_options(self, e: ast.expr) -> list[str] | None:
+        """`{k: v for k, v in <options>.items() if k not in ('a', 'b')}`  ->  ['a', 'b']"""
+        if not (isinstance(e, ast.DictComp) and len(e.generators) == 1):
+            return None
+        g = e.generators[0]
+        it = g.iter
+        if not (isinstance(it, ast.Call) and isinstance(it.func, ast.Attribute) and it.func.attr == "items" and not it.args and isinstance(g.target, ast.Tuple) and len(g.target.elts) == 2 and all(isinstance(x, ast.Name) for x in g.target.elts)):
+            return None
+        k, v = g.target.elts[0].id, g.target.elts[1].id
+        if not (isinstance(e.key, ast.Name) and e.key.id == k and isinstance(e.value, ast.Name) and e.value.id == v):
+            return None
+        keys: list[str] = []
+        for c in g.ifs:
+            parts = c.values if isinstance(c, ast.BoolOp) and isinstance(c.op, ast.And) else [c]
+            for p_ in parts:
+                if isinstance(p_, ast.Compare) and len(p_.ops) == 1 and isinstance(p_.left, ast.Name) and p_.left.id == k:
+                    r = p_.comparators[0]
+                    if isinstance(p_.ops[0], ast.NotIn) and isinstance(r, (ast.Tuple, ast.List, ast.Set)) and all(const_str(x) is not None for x in r.elts):
+                        keys += [const_str(x) for x in r.elts]
+                        continue
+                    if isinstance(p_.ops[0], ast.NotEq) and const_str(r) is not None:
+                        keys.append(const_str(r))
+                        continue
+                return None
+        return keys
 
     def _find_alias_mapping(self) -> None:
         for name, bs in self.binds.items():
@@ -218,6 +260,8 @@ class Model:
 
     def node_membership(self, e: ast.expr) -> tuple[ast.expr, bool, str] | None:
         """resolved test `x in <all nodes>` / `G.has_node(x)`  ->  (x, positive?, 'all' | 'filtered' | 'other:<text>')"""
+        if isinstance(e, ast.Call) and isinstance(e.func, ast.Name) and e.func.id == "bool" and len(e.args) == 1 and not e.keywords:
+            return self.node_membership(e.args[0])
         if isinstance(e, ast.UnaryOp) and isinstance(e.op, ast.Not):
             r = self.node_membership(e.operand)
             return None if r is None else (r[0], not r[1], r[2])
@@ -400,9 +444,10 @@ class Model:
         return list(self._nk_pc.get(id(n), []))
 
     # ------------------------------------------------------------------ structure
-    def loops_around(self, node: ast.AST) -> list[ast.For]:
-        """Enclosing for-loops, outermost first."""
-        out = [a for a in ancestors(node) if isinstance(a, (ast.For, ast.AsyncFor))]
+    def loops_around(self, node: ast.AST, whiles: bool = False) -> list[ast.For]:
+        """Enclosing for-loops (optionally also while-loops), outermost first."""
+        kinds = (ast.For, ast.AsyncFor, ast.While) if whiles else (ast.For, ast.AsyncFor)
+        out = [a for a in ancestors(node) if isinstance(a, kinds)]
         return list(reversed(out))
 
     def stmt_of(self, node: ast.AST) -> ast.AST:
